@@ -70,6 +70,26 @@ def punch_class(r):
     return r[:14]
 
 
+def natpx_nontrivial(tok, res):
+    k = tok[0]
+    if k == "visit":
+        return res.startswith("created") or res == "err:noexist"
+    if k == "release":
+        return res.startswith("exp=")
+    if k == "run":
+        return res in ("ok", "repeated")
+    if k in ("close", "reg", "precheck"):
+        return True
+    if k == "out":
+        return res != "-"
+    return False
+
+
+def natpx_class(r):
+    import re as _re
+    return _re.sub(r"[0-9]+(,[0-9]+)*", "N", r)[:24]
+
+
 PROP = {
         "level": "proof",
         "gens": ["NatTables"],
@@ -97,7 +117,12 @@ PROP = {
             "Frp.C20.classifyLoop_isSome", "Frp.C20.classify_some_iff", "Frp.C20.classify_malformed_error",
             "Frp.C20.waitLoop_eq_spec", "Frp.C20.waitLoop_memoryless", "Frp.C20.foreign_sid_anywhere",
             "Frp.C20.waitLoop_filter_harmless",
+            "Frp.C20.free_step_cfgs", "Frp.C20.pinv_step", "Frp.C20.pinv_reachable", "Frp.C20.registered_iff_live",
+            "Frp.C20.close_unregisters", "Frp.C20.close_removes_own_channel", "Frp.C20.registered_only_by_run",
+            "Frp.C20.closed_stays_unregistered", "Frp.C20.unregistered_refused", "Frp.C20.session_only_for_live_proxy",
+            "Frp.C20.sid_only_from_notifying", "Frp.C20.delivered_is_taken", "Frp.C20.deferred_unregister_witness",
         ],
+        "extra_targets": ["Frp.Props.C20Proxy"],
         "engines": [
             {"name": "nat", "quick_n": 5000, "thorough_n": 12000, "thorough_seeds": 5,
              "search_n": 3000, "search_seeds": 3,
@@ -105,6 +130,9 @@ PROP = {
             {"name": "punch", "quick_n": 100, "thorough_n": 600, "thorough_seeds": 3,
              "search_n": 240, "search_seeds": 2, "reruns": 1,
              "nontrivial": punch_nontrivial, "result_class": punch_class},
+            {"name": "natpx", "quick_n": 500, "thorough_n": 1500, "thorough_seeds": 3,
+             "search_n": 400, "search_seeds": 2, "reruns": 1,
+             "nontrivial": natpx_nontrivial, "result_class": natpx_class},
         ],
         "rule": "nat engine: classification (prop: accepted iff >= 2 entries and every entry valid; long lists with one "
                 "malformed / out-of-range entry at every position after every type-deciding prefix), row-walk rounds (a "
@@ -124,6 +152,17 @@ PROP = {
                 "waitDetectMessage runs over a queued inbox (pwdm: own / foreign / near-miss / empty sid x Response, junk, "
                 "other key, truncated, three sources, any order; prop: the outcome is the memoryless specification's) and "
                 "the sid-message codec; non-trivial when a message decodes, a wait returns or two MakeHole runs ended. "
+                "natpx engine: REAL server-side xtcp proxies (proxy.NewProxy(xtcp).Run()/Close() of server/proxy/xtcp.go with "
+                "their sid-dispatch goroutine) on a real ResourceController + nathole.Controller; the harness never calls "
+                "ListenClient / CloseClient itself; GetWorkConnFn is scripted and SLOW (blocks until the op sequence releases "
+                "it with a work connection or an error). Rounds of 3..5 names with interleaved random histories: request -> "
+                "sid in flight -> Close -> signed requests / pre-checks / registered? / Run of a new proxy of the same name / "
+                "the owner's late answer, in any order; Close of idle proxies, repeated Close, several requests on a slow "
+                "owner, wrong key / user / never registered names, second Run of a live name, deliveries never answered. "
+                "Predicate on the implementation's answers, from the TRACE's own history: a request is answered 'created' "
+                "only if a proxy whose Run answered ok and that no Close op has named holds the name (with that key and "
+                "user), 'repeated' / registered=1 / pre-check ok only while such a proxy exists, a sid reaches only the "
+                "owner of the named proxy, nothing is stored after settle. "
                 "distinct = distinct (op line, result) pairs",
         "trusted": COMMON_TRUST + [
             "translator /verif/translate (generator NatTables, go/ast) regenerates Frp/Gen/NatTables.lean from "
@@ -134,12 +173,22 @@ PROP = {
             "model Frp/Model/NatPunch.lean (MakeHole send plan, waitDetectMessage loop, sid codec as decodes/does not, "
             "many-socket result hand-over) written by hand; tied by the punch engine (real ExchangeInfo, MakeHole, "
             "EncodeMessage/DecodeMessageInto, transport.MessageTransporter Do/Dispatch)",
+            "model Frp/Model/NatProxy.lean (xtcp.go Run / Close / dispatch goroutine composed with the controller model) "
+            "written by hand; tied by the natpx engine (real proxy.NewProxy(xtcp).Run/Close, BaseProxy.GetWorkConnFromPool, "
+            "Controller.HandleVisitor; verif export VerifClients)",
         ],
         "assumptions": [
             "md5 treated as injective (analysis keys and sign keys are represented by their md5 input)",
             "GenSid never repeats a live session id (model: visitorLookup is not enabled for a stored sid)",
-            "the owner loop of an xtcp proxy receives from sidCh exactly while its config is registered (xtcp.go Run/Close); "
-            "since 8d80cd3 this only decides whether the notify is received, not whether the handler ends",
+            "controller-only model (nat engine, NatHole.step): the owner loop of an xtcp proxy receives from sidCh exactly "
+            "while its config is registered; since 8d80cd3 this only decides whether the notify is received, not whether "
+            "the handler ends. The composed model NatProxy.pstep drops this assumption: registration, unregistration and "
+            "the receive are steps of the proxy (registered_iff_live: registered <=> Run succeeded, Close not called, "
+            "dispatch goroutine running)",
+            "Close() is called only on a proxy whose Run() succeeded (server/control.go RegisterProxy returns before its "
+            "deferred Close is installed when Run fails); natpx: a release op first lets the requests parked on that "
+            "proxy's sid channel run into NatHoleTimeout, so 'goroutine takes a parked sid right after a delivery' is "
+            "in the model (recv is enabled) but not driven",
             "time: NatHoleTimeout shortened to 1 s in the harness; the final sleep (ReadTimeoutMs+30 s) before the deferred "
             "delete is not waited for in the quick tier (deletion after it is covered by the model theorem only)",
             "'honest peers find each other': honest_peers_meet_steps follows the two wait loops message by message on an "
@@ -155,7 +204,7 @@ PROP = {
     }
 
 META = {
-        "engine": "lean+translate(NatTables)+harness(nat,punch)",
+        "engine": "lean+translate(NatTables)+harness(nat,punch,natpx)",
         "design_ref": "DESIGN.md §6 C20",
         "technique": "Lean 4: decide over regenerated behaviour tables, invariant over all recommend/report histories, "
                      "small-step session model with rank argument; differential correspondence with the real nathole code",
@@ -173,7 +222,15 @@ META = {
                 "go only to the session's visitor transporter and to a transporter that submitted a NatHoleClient for "
                 "that sid, every handler step strictly lowers a rank, and in every reachable state every stored session "
                 "has an enabled handler step (handler_never_stuck; the notify send is bounded by NatHoleTimeout since "
-                "8d80cd3), so sessions are deleted on every path. A NatHoleReport is enabled in every session phase, "
+                "8d80cd3), so sessions are deleted on every path. LIVE proxy: in the composition of the server-side xtcp "
+                "proxy (Run, Close, its sid-dispatch goroutine: idle | delivering a sid | returned) with the controller, for "
+                "every interleaving, a name is registered exactly while a proxy of that name has run and has not been closed "
+                "(pinv_reachable, registered_iff_live); after Close() returns the name is not registered whatever the "
+                "goroutine is doing (close_unregisters), stays so until a Run of that name (closed_stays_unregistered), "
+                "requests and pre-checks get 'doesn't exist' and a new Run succeeds (unregistered_refused); a session is "
+                "created only for a signed, allowed request naming a proxy that is live with its goroutine running "
+                "(session_only_for_live_proxy); the variant that unregisters when the goroutine returns breaks this "
+                "(deferred_unregister_witness). A NatHoleReport is enabled in every session phase, "
                 "sends nothing, changes no session and no rank, and in every reachable state a report naming an unknown, "
                 "not yet analysed or failed-analysis session changes nothing at all (report_not_analysed_noop); for an "
                 "analysed session only the score list of its own key changes, by ReportSuccess (report_frame, "
